@@ -75,6 +75,14 @@ def gen(ctx):
             lines.append('bmp.at %s %d %d' % (show(img), x, y))
             lines.append('bmp.set %s %d %d %d' % (show(img), x, y, r.below(2)))
             lines.append('bmp.xor %s %d %d %d' % (show(img), x, y, r.below(2)))
+    # Clone / Copy of minimal-stride images that were NOT built by New, and New itself, every width (incl. multiples of 8)
+    for w in range(1, 185):
+        hh = r.range(2, 5)
+        lines.append('bmp.clone %s' % show(mkimg(r, w, hh)))
+        lines.append('bmp.new %d %d %d %d' % (0, 0, w, hh))
+        if w % 8 == 0:
+            lines.append('bmp.new %d %d %d %d' % (3, 5, 3 + w, 5 + hh))
+    # Mask with a function map and a pattern built by New-sized canvases (stride of New) against minimal-stride inputs
     # bounds mismatch must panic; the full symbol sizes
     a, b = mkimg(r, 21, 21), mkimg(r, 22, 21)
     lines.append('bmp.mask %s %s %s' % (show(a), show(b), show(mkimg(r, 24, 24))))
@@ -86,6 +94,12 @@ def gen(ctx):
 
 def expect(line):
     t = line.split()
+    if t[0] == 'bmp.clone':
+        return 'ok ' + t[1]
+    if t[0] == 'bmp.new':
+        x0, y0, x1, y1 = (int(x) for x in t[1:5])
+        stride = (x1 - x0 + 7) // 8
+        return 'ok %d,%d,%d,%d,%d:%s' % (x0, y0, x1, y1, stride, '00' * (stride * (y1 - y0)))
     if t[0] == 'bmp.mask':
         inp, used, pat = parse(t[1]), parse(t[2]), parse(t[3])
         if inp[:4] != used[:4]:
@@ -117,6 +131,10 @@ def oracle(ctx, lines, out):
         e = expect(l)
         if o != e:
             t = l.split()
+            if t[0] == 'bmp.new':
+                v.append({'key': 'bmp.new:w%%8=%d' % ((int(t[3]) - int(t[1])) % 8), 'lines': [l], 'expect': e[:200], 'got': o[:200],
+                          'detail': 'bitmap.New(%s) is not the zeroed image with stride ceil(width/8)' % ','.join(t[1:5])})
+                continue
             img = parse(t[1])
             v.append({'key': '%s:w%%8=%d' % (t[0], img[2] % 8), 'lines': [l], 'expect': e[:400], 'got': o[:400],
                       'detail': '%s on a %dx%d image differs from the pixel-at-a-time reference' % (t[0], img[2], img[3])})
@@ -125,6 +143,8 @@ def oracle(ctx, lines, out):
 
 def nontrivial(line, out):
     t = line.split()
+    if t[0] == 'bmp.new':
+        return True
     img = parse(t[1])
     if t[0] == 'bmp.mask':
         return img[2] % 8 != 0 or parse(t[3])[4] > img[4]
